@@ -88,6 +88,24 @@ pub fn vx_all<T, F: Fn(&T) -> bool>(v: &[T], f: F) -> (r: bool)
     true
 }
 
+/// `slice.iter()` as a value with the std method names (rewrite R11 of the receiver only: `X.iter()` -> `VxIter(&X)` for a Vec X),
+/// so that the call in the code keeps choosing the method — `.all(f)` and `.any(f)` each get their own (verified) contract
+pub struct VxIter<'a, T>(pub &'a Vec<T>);
+impl<'a, T> VxIter<'a, T> {
+    pub fn all<F: Fn(&T) -> bool>(self, f: F) -> (r: bool)
+        requires forall|i: int| 0 <= i < self.0@.len() ==> call_requires(f, (&self.0@[i],)),
+        ensures
+            r ==> forall|i: int| #![trigger self.0@[i]] 0 <= i < self.0@.len() ==> call_ensures(f, (&self.0@[i],), true),
+            !r ==> exists|i: int| #![trigger self.0@[i]] 0 <= i < self.0@.len() && call_ensures(f, (&self.0@[i],), false),
+    { vx_all(self.0.as_slice(), f) }
+    pub fn any<F: Fn(&T) -> bool>(self, f: F) -> (r: bool)
+        requires forall|i: int| 0 <= i < self.0@.len() ==> call_requires(f, (&self.0@[i],)),
+        ensures
+            r ==> exists|i: int| #![trigger self.0@[i]] 0 <= i < self.0@.len() && call_ensures(f, (&self.0@[i],), true),
+            !r ==> forall|i: int| #![trigger self.0@[i]] 0 <= i < self.0@.len() ==> call_ensures(f, (&self.0@[i],), false),
+    { vx_any(self.0.as_slice(), f) }
+}
+
 /// R12: `m.iter().filter(p).map(|(k, v)| (*k, *v)).collect()` — the sub-map of the entries satisfying p (assumed
 /// std iterator semantics; the predicate closure stays verbatim at the call site and is verified there)
 #[verifier::external_body]
